@@ -1996,6 +1996,8 @@ fn build_dao_candidate(g: &mut GenCtx, spec: &CandSpec, d: &DaoCand, probe: usiz
                 1 => (vec![key32(&w_hash), d_block.clone()], 1),
                 2 => (vec![d_block.clone()], 0),
                 3 => (vec![d_block.clone(), key32(&w_hash)], 2 + d.sel as u64 % 3),
+                // W named as its own deposit block: listed once (a repeated header dep is refused as such)
+                7 => (vec![key32(&w_hash)], 0),
                 _ => (vec![d_block.clone(), key32(&w_hash)], 0),
             };
             hdeps = deps;
